@@ -1,6 +1,6 @@
 #!/bin/bash
 # run every selftest/mutants/cNN-*.patch against its own property's quick check; each must exit 1
-cd /verif
+cd "$(dirname "$0")/.."
 out=selftest/mutant_results.txt
 : > $out.tmp
 for m in selftest/mutants/${1:-c}*.patch; do
